@@ -431,6 +431,7 @@ type loopInfo struct {
 	decr    []*loopDecr
 	decrPending []*loopDecr
 	steps   []*loopStep
+	exits   []*loopStep // assertions at every edge that leaves the loop
 	hv      map[*ssa.Phi]Value // the phi values of the arbitrary iteration (header)
 }
 
